@@ -25,6 +25,7 @@ Interpretation decisions (weaker reading where the statement is silent):
   * find_close_in_word on a close returns Some(p) ("matches itself", documented): demanded as documented.
 """
 import json
+import re
 import vlib
 
 LEVEL = "model_checking"
@@ -71,6 +72,31 @@ def split_groups(events):
     return a, b
 
 
+LIVE_ARMS = ["ScanWordFound", "ScanWordNextWord", "CheckL0Descend", "CheckL0SkipWord", "CheckL1Descend",
+             "CheckL1SkipBlock", "CheckL2Descend", "CheckL2SkipBlock", "FromL0WordAligned", "FromL0InsideWord",
+             "FromL1BlockAligned", "FromL1BlockAlignedPastLen", "FromL1InsideBlock", "FromL1PastLen",
+             "FromL2BlockAligned", "FromL2BlockAlignedPastLen", "FromL2InsideBlock"]
+
+
+def automaton_stage(ctx, workers):
+    """find_close_from with one TLC action per code arm; -coverage 1 gives the per-arm firing counts.
+    Non-vacuity: every arm that can fire must have fired.  Arms that never fire in the explored scope
+    (defensive `return None` arms and the two `is_close(pos) && excess <= 1` arms) are recorded, not failed."""
+    r = vlib.model_check(ctx, "MC_FcAutomaton.tla",
+                         "MC_FcAutomaton_quick.cfg" if ctx.quick else "MC_FcAutomaton_thorough.cfg",
+                         workers=workers, timeout=3000, extra=("-coverage", "1"))
+    last = r.out[r.out.rindex("The coverage statistics at"):] if "The coverage statistics at" in r.out else ""
+    fired = {}
+    for m in re.finditer(r"^<(\w+) line \d+, col \d+ to line \d+, col \d+ of module MC_FcAutomaton>: (\d+):(\d+)", last, re.M):
+        fired[m.group(1)] = int(m.group(2))
+    missing = [a for a in LIVE_ARMS if fired.get(a, 0) == 0]
+    if missing:
+        raise vlib.ToolError("find_close_from automaton arms never fired in the model: %s" % missing)
+    arms = {k: v for k, v in fired.items() if k not in ("Init", "AddWord", "Start")}
+    ctx.cov["automaton_arm_firings"] = arms
+    ctx.cov["automaton_dead_arms_in_scope"] = sorted(k for k, v in arms.items() if v == 0)
+
+
 def run(ctx):
     q = ctx.quick
     W = 6
@@ -79,8 +105,9 @@ def run(ctx):
     for cfg in (["MC_RangeMin_quick.cfg", "MC_RangeMin_quick2.cfg"] if q else
                 ["MC_RangeMin_thorough.cfg", "MC_RangeMin_thorough2.cfg"]):
         vlib.model_check(ctx, "MC_RangeMin.tla", cfg, workers=W, timeout=3000)
+    automaton_stage(ctx, W)
 
-    nvec = 56 if q else 400
+    nvec = 44 if q else 400
     maxbits = 200000 if q else 1000000
     total = 0
     ops_seen = set()
